@@ -435,10 +435,31 @@ STATE_CLASSES = [
 ]
 
 
+def _state_class_closure(m):
+  """STATE_CLASSES plus every class of the package that one of them names in a field annotation (transitively): a record
+  nested in a state field is part of the state"""
+  out, work = [], [(mod, nm) for mod, names in STATE_CLASSES for nm in names]
+  seen = set(work)
+  while work:
+    mod, nm = work.pop(0)
+    ci = m.cls(mod, nm)
+    out.append((mod, nm))
+    mi = ci.module
+    for _, _, ann in ci.fields:
+      if ann is None:
+        continue
+      for n in ast.walk(ann if isinstance(ann, ast.AST) else ast.parse(str(ann), mode='eval')):
+        name = n.id if isinstance(n, ast.Name) else (n.value if isinstance(n, ast.Constant) and isinstance(n.value, str) else None)
+        if name and name in mi.classes and not mi.classes[name].is_enum and (mod, name) not in seen:
+          seen.add((mod, name))
+          work.append((mod, name))
+  return out
+
+
 def state_is_data(ctx):
   m = ctx.model
-  for mod, names in STATE_CLASSES:
-    for nm in names:
+  for mod, nm in _state_class_closure(m):
+    if True:
       ci = m.cls(mod, nm)
       ok = ci.is_namedtuple or any('struct.dataclass' in d for d in ci.decorators)
       methods = [k for k in ci.methods if not k.startswith('__')]
